@@ -560,6 +560,22 @@ def controlled_part(run, bench, rng, limit):
 
 
 # ------------------------------------------------------------------------------------------ part B2
+def hot_codes():
+    """Code that works on objects reachable from several packets of a class (the run-time selection of a Ref, the
+    deferred-expression evaluator), looked up by name: a tree that organises this code differently simply has fewer
+    hot sites (the REQUIRED counters then tell that the sweep did not reach them)."""
+    import bisturi.deferred as bd
+    import bisturi.field as bfld
+    out = set()
+    for owner, name in ((bd, "exec_compiled_expr"), (getattr(bfld, "Ref", None), "_unpack_using_callable"),
+                        (getattr(bfld, "Ref", None), "_pack_with_callable")):
+        fn = getattr(owner, name, None)
+        code = getattr(getattr(fn, "__func__", fn), "__code__", None)
+        if code is not None:
+            out.add(code)
+    return out
+
+
 def bisturi_codes():
     """Code objects of the library and of the generated modules loaded right now."""
     import types
@@ -663,7 +679,7 @@ def preemption_sweep(run, bench, rng, cap):
     (raw0, seq0), (raw1, seq1) = inputs
     import bisturi.field as bfld
     import bisturi.deferred as bd
-    hot = {bfld.Ref._unpack_using_callable.__code__, bfld.Ref._pack_with_callable.__code__, bd.exec_compiled_expr.__code__}
+    hot = hot_codes()
     with Preempter(bisturi_codes()) as pre:
         # dry run: how many line events does thread 0's operation produce, and which of them are in the hot functions
         hits = []
@@ -788,7 +804,7 @@ class YieldInjector:
         # code shared by all packets of a class that works on objects reachable from several packets: the deferred
         # expression evaluator and the run-time selection of a Ref (its callable may return one literal field object
         # to every packet, and to several Ref fields when they share an options table)
-        self.hot = {bd.exec_compiled_expr.__code__, bfld.Ref._unpack_using_callable.__code__, bfld.Ref._pack_with_callable.__code__}
+        self.hot = hot_codes()
         for c in self.codes:
             mon.set_local_events(self.TOOL, c, mon.events.LINE)
         self.old = sys.getswitchinterval()
